@@ -12,7 +12,86 @@ import (
 	"crypto/sha256"
 	"encoding/hex"
 	"go/ast"
+	"go/token"
+	"sort"
 )
+
+// c01Globals: PROCESS-GLOBAL state reached from the replay core (dimension audit, session 5): the package-level
+// variables of the files the model transcribes, and every function of those files that WRITES one of them
+// (assignment, op-assignment, ++/--, element assignment, address taken) outside a package-level initialiser.
+// Metric vectors are only read (method calls on them are their own concurrency-safe business); a variable that
+// starts to be written after init - a cache, a lazily built table, a sync.Once - changes this fact, which means:
+// add first-use and concurrent-use cases. Name-based (a local that shadows a global counts as the global: the
+// fact errs on the side of reporting).
+func c01Globals(rels ...string) {
+	vars := []string{}
+	written := []string{}
+	for _, rel := range rels {
+		_, f := parseFile(rel)
+		names := map[string]bool{}
+		for _, d := range f.Decls {
+			gd, ok := d.(*ast.GenDecl)
+			if !ok || gd.Tok != token.VAR {
+				continue
+			}
+			for _, sp := range gd.Specs {
+				for _, n := range sp.(*ast.ValueSpec).Names {
+					names[n.Name] = true
+					vars = append(vars, rel+":"+n.Name)
+				}
+			}
+		}
+		base := func(e ast.Expr) string {
+			for {
+				switch x := e.(type) {
+				case *ast.IndexExpr:
+					e = x.X
+				case *ast.SelectorExpr:
+					e = x.X
+				case *ast.ParenExpr:
+					e = x.X
+				case *ast.StarExpr:
+					e = x.X
+				case *ast.Ident:
+					return x.Name
+				default:
+					return ""
+				}
+			}
+		}
+		for _, d := range f.Decls {
+			fd, ok := d.(*ast.FuncDecl)
+			if !ok || fd.Body == nil {
+				continue
+			}
+			ast.Inspect(fd.Body, func(n ast.Node) bool {
+				hit := func(e ast.Expr) {
+					if b := base(e); b != "" && names[b] {
+						written = append(written, rel+":"+b+" in "+fd.Name.Name)
+					}
+				}
+				switch x := n.(type) {
+				case *ast.AssignStmt:
+					if x.Tok != token.DEFINE {
+						for _, l := range x.Lhs {
+							hit(l)
+						}
+					}
+				case *ast.IncDecStmt:
+					hit(x.X)
+				case *ast.UnaryExpr:
+					if x.Op == token.AND {
+						hit(x.X)
+					}
+				}
+				return true
+			})
+		}
+	}
+	sort.Strings(vars)
+	sort.Strings(written)
+	facts["sender_globals"] = map[string]interface{}{"vars": vars, "written_after_init": written}
+}
 
 func c01Digest(rel string, names ...string) {
 	fset, f := parseFile(rel)
@@ -61,4 +140,5 @@ func genC01() {
 		"checkpoint", "buildSelectCmdExecution")
 	c01Digest("syncer/transaction.go", "transactionStatus")
 	c01Digest("pkg/redis/checkpoint/checkpoint.go", "GetCheckpoint", "fetchCheckpoint")
+	c01Globals("syncer/output.go", "syncer/transaction.go", "pkg/redis/checkpoint/checkpoint.go", "pkg/redis/checkpoint/checkpoint_info.go")
 }
